@@ -34,13 +34,16 @@ structure Hier.Ok (H : Hier) : Prop where
   ty_sub : ∀ c ∈ H.classes, ∀ m, H.sup c H.typeC = some m → c = H.typeC
   ty_sup : ∀ c ∈ H.classes, ∀ m, H.sup H.typeC c = some m → c = H.typeC ∨ c = H.objectC
   no_const_fn : ∀ c ∈ H.classes, ∀ d ∈ H.classes, H.sup c d ≠ some (.const H.functionC)
+  const_plain : ∀ c ∈ H.classes, ∀ d ∈ H.classes, ∀ a, H.sup c d = some (.const a) →
+    ∀ e ∈ H.classes, H.sup a e = none ∨ H.sup a e = some .na
 
 theorem contains_iff {cs : List Nat} {c : Nat} : cs.contains c = true ↔ c ∈ cs := by
   simp
 
 theorem Hier.ok_sound (H : Hier) (h : H.ok = true) : H.Ok := by
   simp only [Hier.ok, Bool.and_eq_true] at h
-  obtain ⟨⟨⟨⟨hsp, hsup⟩, hb⟩, htl⟩, hft⟩ := h
+  obtain ⟨⟨⟨⟨⟨hsp, hsup⟩, hb⟩, htl⟩, hft⟩, hcp⟩ := h
+  simp only [Hier.okConst, List.all_eq_true] at hcp
   simp only [Hier.okSpecial, Bool.and_eq_true, List.contains_iff_mem, Bool.not_eq_true',
     List.isEmpty_iff] at hsp
   obtain ⟨⟨⟨⟨⟨⟨⟨⟨⟨h1, h2⟩, h3⟩, h4⟩, h5⟩, h6⟩, h7⟩, h8⟩, h9⟩, h10⟩ := hsp
@@ -48,7 +51,7 @@ theorem Hier.ok_sound (H : Hier) (h : H.ok = true) : H.Ok := by
   simp only [Hier.okBases, List.all_eq_true, Bool.and_eq_true] at hb
   simp only [Hier.okTupleLike, List.all_eq_true] at htl
   simp only [Hier.okFunType, List.all_eq_true, Bool.and_eq_true] at hft
-  refine ⟨h1, h2, h3, h4, h5, h6, h7, h8, h9, h10, ?_, ?_, ?_, ?_, ?_, ?_, ?_, ?_, ?_, ?_, ?_, ?_, ?_, ?_, ?_, ?_, ?_⟩
+  refine ⟨h1, h2, h3, h4, h5, h6, h7, h8, h9, h10, ?_, ?_, ?_, ?_, ?_, ?_, ?_, ?_, ?_, ?_, ?_, ?_, ?_, ?_, ?_, ?_, ?_, ?_⟩
   · intro c hc; have := (hsup c hc).1.1; simpa using this
   · intro c hc; have := (hsup c hc).1.2; simpa using this
   · intro c hc d hd m hm
@@ -127,5 +130,10 @@ theorem Hier.ok_sound (H : Hier) (h : H.ok = true) : H.Ok := by
   · intro c hc d hd
     have := (hft c hc).2
     simpa using this d hd
+  · intro c hc d hd a hm e he
+    have := hcp c hc d hd
+    rw [hm] at this
+    simp only [List.all_eq_true] at this
+    simpa using this e he
 
 end Types
